@@ -844,3 +844,14 @@ def counting_symmetry(ctx: Ctx, rule: str, relpath: str, *, up: str = "acquire",
         ctx.ob(rule, "G4", c.methods[down], f"{c.name}: {up} and {down} move the counter by the same amount", not bad,
                f"{c.name}.{up} adds and .{down} removes the same amount ({', '.join(f'{t} ±{ups[t]}' for t in sorted(shared))})" + ("" if not bad else " — asymmetric: " + "; ".join(bad)))
     return n
+
+
+def applied_before_suspension(ctx: Ctx, rule: str, fn: FunctionInfo, target_text: str, what: str) -> None:
+    """Every suspension of ``fn`` is preceded on every path by the write whose target unparses to ``target_text`` (the state change
+    happens before the modelled latency, so nothing that runs during the latency can miss it or act on the old container)."""
+    from ..suspend import node_suspension
+    ff = ctx.flow(fn)
+    ws = [n for n in ff.cfg.nodes if n.kind == "stmt" and isinstance(n.ast, (ast.Assign, ast.AugAssign)) and unparse(n.ast.targets[0] if isinstance(n.ast, ast.Assign) else n.ast.target).replace(" ", "") == target_text]
+    susp = [n for n in ff.cfg.nodes if n.kind in ("stmt", "test", "for") and node_suspension(ctx.prog, fn, n)]
+    ok = bool(ws) and bool(susp) and all(not always_before(ctx, fn, lambda x: x in ws, lambda x, s_=s_: x is s_) for s_ in susp)
+    ctx.ob(rule, "G5", fn, ws[0].ast if ws else None, ok, what)
